@@ -146,6 +146,9 @@ Definition t_dir : text := Eval vm_compute in bs "dir".
 Definition t_cnt : text := Eval vm_compute in bs "cnt".
 Definition t_ori : text := Eval vm_compute in bs "ori".
 
+Definition dir_entry_types : list text := Eval vm_compute in [bs "file"; bs "dir"; bs "rev"].
+Definition content_statuses : list text := Eval vm_compute in [bs "visible"; bs "hidden"].
+Definition skipped_content_statuses : list text := Eval vm_compute in [bs "absent"].
 Definition visit_statuses : list text :=
   Eval vm_compute in [bs "created"; bs "ongoing"; bs "full"; bs "partial"; bs "not_found"; bs "failed"].
 
@@ -422,13 +425,13 @@ Definition custom (c : cls) (fs : fields) : bool :=
   | cRevision => negb (is_none (g k_author) && negb (is_none (g k_date)))
                  && negb (is_none (g k_committer) && negb (is_none (g k_committer_date)))
   | cDirectoryEntry =>
-      match g k_name with VBytes b => negb (memb 47 b) | _ => false end && str_in [s_file; s_dir; s_rev] (g k_type)
+      match g k_name with VBytes b => negb (memb 47 b) | _ => false end && str_in dir_entry_types (g k_type)
   | cDirectory => match g k_entries with VTuple l => bytes_nodup (map name_bytes l) | _ => false end
   | cContent =>
-      exact_int (g k_length) && (0 <=? int_of (g k_length))%Z && str_in [s_visible; s_hidden] (g k_status)
+      exact_int (g k_length) && (0 <=? int_of (g k_length))%Z && str_in content_statuses (g k_status)
       && is_date_or_none (g k_ctime)
   | cSkippedContent =>
-      exact_int (g k_length) && (-1 <=? int_of (g k_length))%Z && str_in [s_absent] (g k_status)
+      exact_int (g k_length) && (-1 <=? int_of (g k_length))%Z && str_in skipped_content_statuses (g k_status)
       && match g k_reason with VStr _ => true | _ => false end && is_date_or_none (g k_ctime)
   | cRawExtrinsicMetadata =>
       let tt := swhid_tag (g k_target) in
